@@ -1,13 +1,26 @@
-"""C07 — session machine check (see harness/sess_checks.py, Model/Session.lean, Props/C07.lean)."""
+"""C07 — hostile input cannot wedge a session.
+
+Two layers: the session-machine family (harness/sess_checks.py, Model/Session.lean, Props/C07.lean: a malformed frame is the token
+`bad`) and the byte level (harness/sess_hostile.py: real malformed / extreme frames of every class fed to soup client, soup server
+and FIX sessions through a transport with flow control; Model/Framing.lean, Props/C07Framing.lean)."""
+import json
+
 import sess_checks
+import sess_hostile
 
 DRIVER = 'drv_C05'
-LEAN_TARGETS = ['NasdaqModel.Props.C07', 'drv_C05']
+LEAN_TARGETS = ['NasdaqModel.Props.C07', 'drv_C05', 'drv_C03']
 
 
 def run(ctx):
     sess_checks.run_family(ctx, 'C07')
+    sess_hostile.run_hostile(ctx)
 
 
 def replay(ctx, path):
+    r = json.load(open(path))
+    rep = r.get('replay') or (r.get('no_longer_checks') or [{}])[-1].get('case') or r
+    if isinstance(rep, dict) and rep.get('kind') == 'hostile':
+        sess_hostile.replay_hostile(ctx, rep)
+        return
     sess_checks.replay_family(ctx, 'C07', path)
